@@ -902,6 +902,24 @@ impl World {
         }
         let mut r = Resp::default();
         match mode {
+            4 => {
+                // NXDOMAIN for a name of an NSEC zone, "proven" by the zone's
+                // apex NSEC and the *last NSEC of a securely delegated child
+                // zone* that sorts before the name: that one wraps around to
+                // its own apex and so "covers" everything behind it - but it
+                // is the child's, signed by the child, and says nothing about
+                // the parent's names.
+                let z = self.find_zone(&name, qtype);
+                if !z.signed || !z.has_owner(&name) || name == z.apex || z.denial != Denial::Nsec {
+                    return None;
+                }
+                let child = self.zones.iter().find(|c| c.signed && c.denial == Denial::Nsec && c.apex != z.apex && ends_with(&c.apex, &z.apex) && sname(&c.apex).canonical_cmp(&sname(&name)) == std::cmp::Ordering::Less)?;
+                let last = child.nsec_owners.last()?;
+                r.rcode_nx = true;
+                z.push_set(&mut r.authority, &z.apex, Rtype::SOA, None);
+                z.push_set(&mut r.authority, &z.apex, Rtype::NSEC, None);
+                child.push_set(&mut r.authority, &lname(last), Rtype::NSEC, None);
+            }
             3 => {
                 let z = self.find_zone(&name, qtype);
                 if !z.signed || !z.has_owner(&name) || name == z.apex || !matches!(z.denial, Denial::Nsec3 { .. }) {
